@@ -323,10 +323,17 @@ def settle(pid, family, trace_module, trace_cfg, scr, drv, evdir, results, extra
             event = json.loads(line_of(chunk, l))
             case = json.loads(line_of(chunk.replace("ev-", "case-"), l))
             path = write_replay(pid, family, case, event, dev, extra_replay)
-            again = replay_event(drv, family, path, env=drv_env)
-            rej = judge_single(scr, trace_module, trace_cfg, again)
-            if any(pr == pid for pr, _ in rej):
-                viol.append(dict(dev=dev, replay=path, count=len(lst)))
+            # a step that walks Go maps may depend on the iteration order the runtime picks:
+            # the replay is repeated until the rejection shows again (or is given up as unreproduced)
+            reproduced = False
+            for attempt in range(30):
+                again = replay_event(drv, family, path, env=drv_env)
+                rej = judge_single(scr, trace_module, trace_cfg, again)
+                if any(pr == pid for pr, _ in rej):
+                    reproduced = True
+                    break
+            if reproduced:
+                viol.append(dict(dev=dev, replay=path, count=len(lst), replay_attempts=attempt + 1))
                 break
             unreproduced.append(path)
             os.remove(path)
